@@ -136,6 +136,100 @@ def own_stmts(body: list[ast.stmt]) -> Iterator[ast.stmt]:
                 yield from own_stmts(h.body)
 
 
+def _lower_comp(comp, emit, counter: list) -> list[ast.stmt]:
+    """Nested for/if statements equivalent to the comprehension; `emit(elt)` builds the innermost statement. Targets are
+    renamed apart (a comprehension has its own scope)."""
+    import copy
+    comp = copy.deepcopy(comp)
+    counter[0] += 1
+    names = {y.id for g in comp.generators for y in ast.walk(g.target) if isinstance(y, ast.Name)}
+    ren = {x: f"{x}__c{counter[0]}" for x in names}
+
+    class R(ast.NodeTransformer):
+        def visit_Name(self, n):
+            return ast.copy_location(ast.Name(ren[n.id], n.ctx), n) if n.id in ren else n
+    # the first iterable is evaluated outside the comprehension's scope
+    first_iter = comp.generators[0].iter
+    comp = R().visit(comp)
+    comp.generators[0].iter = first_iter
+    inner: list[ast.stmt] = [emit(comp.elt if not isinstance(comp, ast.DictComp) else (comp.key, comp.value))]
+    for g in reversed(comp.generators):
+        for c in reversed(g.ifs):
+            inner = [ast.If(c, inner, [])]
+        inner = [ast.For(g.target, g.iter, inner, [])]
+        for y in ast.walk(g.target):
+            if isinstance(y, ast.Name):
+                y.ctx = ast.Store()
+    return inner
+
+
+
+def _containment_from_quantifier(n: ast.Call) -> ast.expr | None:
+    """all((k, v) == x or M.get(k) == v for k, v in A.items())  ->  A.items() <= (M.items() | {x})
+    (the values of these mappings are never None, so `M.get(k) == v` says that (k, v) is an item of M)."""
+    if not (isinstance(n.func, ast.Name) and n.func.id == "all" and len(n.args) == 1 and not n.keywords
+            and isinstance(n.args[0], (ast.GeneratorExp, ast.ListComp)) and len(n.args[0].generators) == 1):
+        return None
+    g = n.args[0].generators[0]
+    if g.ifs or g.is_async or not (isinstance(g.target, ast.Tuple) and len(g.target.elts) == 2
+                                   and all(isinstance(t, ast.Name) for t in g.target.elts)):
+        return None
+    it = g.iter
+    if not (isinstance(it, ast.Call) and isinstance(it.func, ast.Attribute) and it.func.attr == "items" and not it.args):
+        return None
+    K, V = g.target.elts[0].id, g.target.elts[1].id
+    if any(isinstance(y, ast.Name) and y.id in (K, V) for y in ast.walk(it)):
+        return None
+
+    def is_pair(e) -> bool:
+        return isinstance(e, ast.Tuple) and len(e.elts) == 2 and isinstance(e.elts[0], ast.Name) and e.elts[0].id == K \
+            and isinstance(e.elts[1], ast.Name) and e.elts[1].id == V
+
+    def free_of_kv(e) -> bool:
+        return not any(isinstance(y, ast.Name) and y.id in (K, V) for y in ast.walk(e))
+
+    def is_get(e):
+        if isinstance(e, ast.Call) and isinstance(e.func, ast.Attribute) and e.func.attr == "get" and 1 <= len(e.args) <= 2 \
+                and isinstance(e.args[0], ast.Name) and e.args[0].id == K and free_of_kv(e.func.value) \
+                and (len(e.args) == 1 or isinstance(e.args[1], ast.Constant) and e.args[1].value is None):
+            return e.func.value
+        return None
+    elt = n.args[0].elt
+    parts = elt.values if isinstance(elt, ast.BoolOp) and isinstance(elt.op, ast.Or) else [elt]
+    items: list[ast.expr] = []
+    singles: list[ast.expr] = []
+    for d in parts:
+        if isinstance(d, ast.Compare) and len(d.ops) == 1 and isinstance(d.ops[0], ast.Eq):
+            a, b = d.left, d.comparators[0]
+            if is_pair(a) and free_of_kv(b):
+                singles.append(b)
+                continue
+            if is_pair(b) and free_of_kv(a):
+                singles.append(a)
+                continue
+            m = is_get(a) if isinstance(b, ast.Name) and b.id == V else is_get(b) if isinstance(a, ast.Name) and a.id == V else None
+            if m is not None:
+                items.append(ast.Call(ast.Attribute(m, "items", ast.Load()), [], []))
+                continue
+        if isinstance(d, ast.Compare) and len(d.ops) == 1 and isinstance(d.ops[0], ast.In) and is_pair(d.left):
+            c = d.comparators[0]
+            if isinstance(c, ast.Call) and isinstance(c.func, ast.Attribute) and c.func.attr == "items" and not c.args and free_of_kv(c):
+                items.append(c)
+                continue
+        return None
+    if not items:
+        return None
+    rhs: ast.expr = items[0]
+    for x in items[1:]:
+        rhs = ast.BinOp(rhs, ast.BitOr(), x)
+    if singles:
+        rhs = ast.BinOp(rhs, ast.BitOr(), ast.Set(singles))
+    out = ast.Compare(it, [ast.LtE()], [rhs])
+    for y in ast.walk(out):
+        ast.copy_location(y, n)
+    return out
+
+
 class _DropAnn(ast.NodeTransformer):
     """`x: T = v` inside functions -> `x = v` (annotation kept as `_ann`): annotations of locals have no run-time
     meaning, and rules should not depend on whether a local is annotated."""
@@ -159,6 +253,37 @@ class _DropAnn(ast.NodeTransformer):
         self.depth -= 1
         return n
 
+    def visit_For(self, n):
+        # for i, data in G.nodes(data=True) / G.nodes.items() / G.nodes.data():   ->   for i in G.nodes: data = G.nodes[i]
+        self.generic_visit(n)
+        it = n.iter
+        G = None
+        if isinstance(it, ast.Call) and isinstance(it.func, ast.Attribute):
+            f = it.func
+            if f.attr == "nodes" and not it.args and len(it.keywords) == 1 and it.keywords[0].arg == "data" \
+                    and isinstance(it.keywords[0].value, ast.Constant) and it.keywords[0].value.value is True:
+                G = f.value
+            elif f.attr in ("items", "data") and not it.args and not it.keywords and isinstance(f.value, ast.Attribute) \
+                    and f.value.attr == "nodes":
+                G = f.value.value
+        if self.depth > 0 and G is not None and isinstance(n.target, ast.Tuple) and len(n.target.elts) == 2 \
+                and all(isinstance(t, ast.Name) for t in n.target.elts) \
+                and not any(isinstance(y, ast.Call) for y in ast.walk(G)):
+            import copy as _copy
+            i_, d_ = n.target.elts[0].id, n.target.elts[1].id
+            if i_ == "_" or i_ == d_:
+                self.nid = getattr(self, "nid", 0) + 1
+                i_ = f"_nid{self.nid}"
+            nodes = ast.Attribute(_copy.deepcopy(G), "nodes", ast.Load())
+            bind = ast.Assign([ast.Name(d_, ast.Store())], ast.Subscript(_copy.deepcopy(nodes), ast.Name(i_, ast.Load()), ast.Load()))
+            new = ast.For(ast.Name(i_, ast.Store()), nodes, [bind] + n.body, n.orelse)
+            ast.copy_location(new, n)
+            for y in [new.target, new.iter, bind] + list(ast.walk(bind)) + list(ast.walk(new.iter)):
+                ast.copy_location(y, n.target)
+            ast.fix_missing_locations(new)
+            return new
+        return n
+
     def visit_ClassDef(self, n):
         d, self.depth = self.depth, 0
         self.generic_visit(n)
@@ -166,14 +291,35 @@ class _DropAnn(ast.NodeTransformer):
         return n
 
     def visit_AnnAssign(self, n):
+        self.generic_visit(n)
         if self.depth > 0 and n.value is not None and isinstance(n.target, ast.Name):
             a = ast.copy_location(ast.Assign([n.target], n.value), n)
             a._ann = n.annotation
-            return a
+            return self.visit_Assign(a)
         return n
 
 
     def visit_Assign(self, n):
+        self.generic_visit(n)
+        # X = {e for a in A for b in B ..}  ->  X = set(); for a in A: for b in B: .. X.add(e)    (several generators)
+        if self.depth > 0 and len(n.targets) == 1 and isinstance(n.targets[0], ast.Name) \
+                and isinstance(n.value, (ast.SetComp, ast.ListComp)) and len(n.value.generators) >= 2 \
+                and not any(g.is_async for g in n.value.generators):
+            X = n.targets[0].id
+            if not any(isinstance(y, ast.Name) and y.id == X for y in ast.walk(n.value)):
+                meth = "add" if isinstance(n.value, ast.SetComp) else "append"
+                init = ast.Assign([ast.Name(X, ast.Store())], ast.Call(ast.Name("set", ast.Load()), [], [])
+                                  if meth == "add" else ast.List([], ast.Load()))
+                self.cc = getattr(self, "cc", [0])
+                out = [init] + _lower_comp(n.value, lambda e: ast.Expr(ast.Call(ast.Attribute(ast.Name(X, ast.Load()), meth, ast.Load()),
+                                                                              [e], [])), self.cc)
+                for st in out:
+                    ast.copy_location(st, n)
+                    ast.fix_missing_locations(st)
+                    for y in ast.walk(st):
+                        if hasattr(y, "lineno"):
+                            y.lineno = y.end_lineno = n.lineno
+                return out
         # a, b = e1, e2  ->  a = e1; b = e2     when no later right-hand side reads an earlier target
         if self.depth > 0 and len(n.targets) == 1 and isinstance(n.targets[0], ast.Tuple) and isinstance(n.value, ast.Tuple) \
                 and len(n.targets[0].elts) == len(n.value.elts) >= 2 and all(isinstance(t, ast.Name) for t in n.targets[0].elts):
@@ -185,6 +331,24 @@ class _DropAnn(ast.NodeTransformer):
                     ok = False
             if ok:
                 return [ast.copy_location(ast.Assign([t], e), n) for t, e in zip(n.targets[0].elts, n.value.elts)]
+        return n
+
+    def visit_Call(self, n):
+        self.generic_visit(n)
+        if self.depth > 0:
+            r = _containment_from_quantifier(n)
+            if r is not None:
+                return r
+        return n
+
+    def visit_Dict(self, n):
+        # {**a, **b}  ->  a | b      (the union of two mappings, later entries win in both spellings)
+        self.generic_visit(n)
+        if self.depth > 0 and len(n.values) >= 2 and all(k is None for k in n.keys):
+            e = n.values[0]
+            for v in n.values[1:]:
+                e = ast.copy_location(ast.BinOp(e, ast.BitOr(), v), n)
+            return e
         return n
 
     def visit_AugAssign(self, n):
@@ -202,6 +366,7 @@ class _DropAnn(ast.NodeTransformer):
         return n
 
     def visit_Expr(self, n):
+        self.generic_visit(n)
         # yield from E  ->  for _y in E: yield _y     (plain iteration; generators of this package take no send())
         if self.depth > 0 and isinstance(n.value, ast.YieldFrom):
             self.yf = getattr(self, "yf", 0) + 1
@@ -227,8 +392,48 @@ class _DropAnn(ast.NodeTransformer):
                 if hasattr(y, "lineno"):
                     y.lineno = y.end_lineno = n.lineno
             return a
-        # X.extend([a, b]) -> X.append(a); X.append(b)
+        # D.update(a=1, b=2) / D.update({"a": 1, "b": 2})  ->  D["a"] = 1; D["b"] = 2
         c = n.value
+        if self.depth > 0 and isinstance(c, ast.Call) and isinstance(c.func, ast.Attribute) and c.func.attr == "update" \
+                and isinstance(c.func.value, (ast.Name, ast.Attribute, ast.Subscript)) \
+                and not any(isinstance(y, ast.Call) for y in ast.walk(c.func.value)):
+            pairs = None
+            if not c.args and c.keywords and all(k.arg is not None for k in c.keywords):
+                pairs = [(ast.Constant(k.arg), k.value) for k in c.keywords]
+            elif len(c.args) == 1 and not c.keywords and isinstance(c.args[0], ast.Dict) and c.args[0].keys \
+                    and all(isinstance(k, ast.Constant) and isinstance(k.value, str) for k in c.args[0].keys):
+                pairs = list(zip(c.args[0].keys, c.args[0].values))
+            if pairs:
+                import copy as _copy
+                out = []
+                for k_, v_ in pairs:
+                    a = ast.Assign([ast.Subscript(_copy.deepcopy(c.func.value), k_, ast.Store())], v_)
+                    ast.copy_location(a, n)
+                    ast.fix_missing_locations(a)
+                    for y in ast.walk(a):
+                        if hasattr(y, "lineno"):
+                            y.lineno = y.end_lineno = n.lineno
+                    out.append(a)
+                return out
+        # X.update(e for ..) / X.extend(e for ..)  ->  for ..: X.add(e) / X.append(e)
+        if self.depth > 0 and isinstance(c, ast.Call) and isinstance(c.func, ast.Attribute) and c.func.attr in ("update", "extend") \
+                and isinstance(c.func.value, ast.Name) and len(c.args) == 1 and not c.keywords \
+                and isinstance(c.args[0], (ast.GeneratorExp, ast.ListComp, ast.SetComp)) \
+                and not (c.func.attr == "update" and isinstance(c.args[0].elt, ast.Tuple)) \
+                and not any(g.is_async for g in c.args[0].generators):
+            meth = "add" if c.func.attr == "update" else "append"
+            X = c.func.value.id
+            self.cc = getattr(self, "cc", [0])
+            out = _lower_comp(c.args[0], lambda e: ast.Expr(ast.Call(ast.Attribute(ast.Name(X, ast.Load()), meth, ast.Load()), [e], [])),
+                              self.cc)
+            for st in out:
+                ast.copy_location(st, n)
+                ast.fix_missing_locations(st)
+                for y in ast.walk(st):
+                    if hasattr(y, "lineno"):
+                        y.lineno = y.end_lineno = n.lineno
+            return out
+        # X.extend([a, b]) -> X.append(a); X.append(b)
         if self.depth > 0 and isinstance(c, ast.Call) and isinstance(c.func, ast.Attribute) and c.func.attr == "extend" \
                 and isinstance(c.func.value, ast.Name) and len(c.args) == 1 and isinstance(c.args[0], ast.List) and c.args[0].elts \
                 and not any(isinstance(e, ast.Starred) for e in c.args[0].elts):
@@ -256,8 +461,287 @@ def _drop_local_annotations(tree: ast.Module) -> None:
                 unroll_in(getattr(st, "orelse", []))
     unroll_in(tree.body)
     for x in ast.walk(tree):
+        if isinstance(x, ast.ClassDef):
+            for y in x.body:
+                if isinstance(y, ast.FunctionDef) and y.args.args and not any(
+                        isinstance(d, ast.Name) and d.id == "staticmethod" for d in y.decorator_list):
+                    _worklist_to_recursion(y, True)
+    for y in tree.body:
+        if isinstance(y, ast.FunctionDef):
+            _worklist_to_recursion(y, False)
+    from . import memo
+    for x in ast.walk(tree):
         if isinstance(x, ast.FunctionDef):
             _flatten_chains(x)
+            _inline_flag_locals(x)
+            memo.dissolve(x)
+
+
+_MUTATORS = {"append", "extend", "add", "remove", "discard", "pop", "clear", "sort", "update", "insert", "reverse", "popleft",
+             "appendleft", "setdefault", "popitem", "difference_update", "intersection_update", "symmetric_difference_update"}
+
+
+def _pure_flag_expr(e: ast.expr) -> bool:
+    """A comparison / and / or / not over names, constants, len(name) and `x.config[const]` reads."""
+    if isinstance(e, ast.BoolOp):
+        return all(_pure_flag_expr(v) for v in e.values)
+    if isinstance(e, ast.UnaryOp) and isinstance(e.op, ast.Not):
+        return _pure_flag_expr(e.operand)
+    if isinstance(e, ast.Compare):
+        return all(_pure_operand(x) for x in [e.left] + e.comparators)
+    return False
+
+
+def _pure_operand(e: ast.expr) -> bool:
+    if isinstance(e, (ast.Name, ast.Constant)):
+        return True
+    if isinstance(e, ast.Call) and isinstance(e.func, ast.Name) and e.func.id == "len" and len(e.args) == 1 and not e.keywords:
+        return isinstance(e.args[0], ast.Name)
+    if isinstance(e, ast.Subscript) and isinstance(e.slice, ast.Constant) and isinstance(e.value, ast.Attribute) \
+            and e.value.attr == "config" and isinstance(e.value.value, ast.Name):
+        return True
+    if isinstance(e, ast.UnaryOp) and isinstance(e.op, ast.USub):
+        return _pure_operand(e.operand)
+    return False
+
+
+def _touches(st: ast.AST, names: set[str]) -> bool:
+    """Does the statement (anywhere inside) rebind or mutate one of the names?"""
+    for n in ast.walk(st):
+        if isinstance(n, ast.Name) and isinstance(n.ctx, (ast.Store, ast.Del)) and n.id in names:
+            return True
+        if isinstance(n, (ast.Global, ast.Nonlocal)) and set(n.names) & names:
+            return True
+        if isinstance(n, ast.Call) and isinstance(n.func, ast.Attribute) and n.func.attr in _MUTATORS \
+                and isinstance(n.func.value, ast.Name) and n.func.value.id in names:
+            return True
+        if isinstance(n, ast.Subscript) and isinstance(n.ctx, (ast.Store, ast.Del)) and isinstance(n.value, ast.Name) \
+                and n.value.id in names:
+            return True
+    return False
+
+
+def _inline_flag_locals(fn: ast.FunctionDef) -> int:
+    """`b = <comparison>` stored once: later reads of `b` in the same block (and below it) are replaced by the comparison as
+    long as none of its operands was rebound or mutated in between. Named conditions then look like the conditions they name."""
+    stores: dict[str, int] = {}
+    own: list[ast.AST] = []
+    stack: list[ast.AST] = list(fn.body)
+    nested_names: set[str] = set()
+    while stack:
+        n = stack.pop()
+        own.append(n)
+        for c in ast.iter_child_nodes(n):
+            if isinstance(c, (ast.FunctionDef, ast.Lambda, ast.ClassDef)):
+                for y in ast.walk(c):
+                    if isinstance(y, (ast.Nonlocal, ast.Global)):
+                        nested_names.update(y.names)
+                continue
+            stack.append(c)
+    for n in own:
+        if isinstance(n, ast.Name) and isinstance(n.ctx, (ast.Store, ast.Del)):
+            stores[n.id] = stores.get(n.id, 0) + 1
+    params = {a.arg for a in fn.args.posonlyargs + fn.args.args + fn.args.kwonlyargs}
+    count = 0
+
+    def replace_in(st: ast.AST, name: str, value: ast.expr) -> None:
+        nonlocal count
+        for fld, v in ast.iter_fields(st):
+            items = v if isinstance(v, list) else [v]
+            for i, c in enumerate(items):
+                if not isinstance(c, ast.AST) or isinstance(c, (ast.FunctionDef, ast.Lambda, ast.ClassDef)):
+                    continue
+                if isinstance(c, ast.Name) and isinstance(c.ctx, ast.Load) and c.id == name:
+                    import copy
+                    k = copy.deepcopy(value)
+                    for y in ast.walk(k):
+                        ast.copy_location(y, c)
+                    count += 1
+                    if isinstance(v, list):
+                        v[i] = k
+                    else:
+                        setattr(st, fld, k)
+                else:
+                    replace_in(c, name, value)
+
+    def block(body: list) -> None:
+        for i, st in enumerate(body):
+            if isinstance(st, ast.Assign) and len(st.targets) == 1 and isinstance(st.targets[0], ast.Name) \
+                    and stores.get(st.targets[0].id) == 1 and st.targets[0].id not in params \
+                    and st.targets[0].id not in nested_names and _pure_flag_expr(st.value):
+                free = {y.id for y in ast.walk(st.value) if isinstance(y, ast.Name)} - {"len"}
+                if st.targets[0].id in free:
+                    continue
+                for later in body[i + 1:]:
+                    if _touches(later, free):
+                        break
+                    replace_in(later, st.targets[0].id, st.value)
+            for fld in ("body", "orelse", "finalbody"):
+                sub = getattr(st, fld, None)
+                if isinstance(sub, list) and sub and isinstance(sub[0], ast.stmt) and not isinstance(st, (ast.FunctionDef, ast.ClassDef)):
+                    block(sub)
+            for h in getattr(st, "handlers", []) or []:
+                block(h.body)
+    block(fn.body)
+    return count
+
+
+def _worklist_to_recursion(fn: ast.FunctionDef, in_class: bool) -> bool:
+    """A function that only drives a private stack of frames made of its own parameters
+
+        def f(self, a, b):  [asserts]
+            todo = [(a, b)]
+            while todo:
+                x, y = todo.pop()
+                BODY ... todo.append((e1, e2)) ...
+
+    is read as the recursion it replaces: `[asserts]; BODY[x:=a, y:=b]` with `self.f(e1, e2)` for every push. The order in
+    which frames are handled differs (deferred instead of immediate); the rules on such helpers (what is stored under which
+    guard, which frames are created) do not depend on it."""
+    params = [a.arg for a in fn.args.posonlyargs + fn.args.args]
+    if fn.args.vararg or fn.args.kwarg or fn.args.kwonlyargs or fn.decorator_list:
+        return False
+    body = list(fn.body)
+    i = 0
+    while i < len(body) and (isinstance(body[i], ast.Assert) or isinstance(body[i], ast.Expr) and isinstance(body[i].value, ast.Constant)):
+        i += 1
+    if len(body) - i != 2:
+        return False
+    init, loop = body[i], body[i + 1]
+    if isinstance(init, ast.AnnAssign) and init.value is not None and isinstance(init.target, ast.Name):
+        Q, iv = init.target.id, init.value
+    elif isinstance(init, ast.Assign) and len(init.targets) == 1 and isinstance(init.targets[0], ast.Name):
+        Q, iv = init.targets[0].id, init.value
+    else:
+        return False
+    if isinstance(iv, ast.Call) and isinstance(iv.func, ast.Name) and iv.func.id == "deque" and len(iv.args) == 1:
+        iv = iv.args[0]
+    if not (isinstance(iv, ast.List) and len(iv.elts) == 1):
+        return False
+    f0 = iv.elts[0]
+    frame0 = list(f0.elts) if isinstance(f0, ast.Tuple) else [f0]
+    if not all(isinstance(e, ast.Name) and e.id in params and (not in_class or e.id != params[0]) for e in frame0) \
+            or len({e.id for e in frame0}) != len(frame0):
+        return False
+    if not isinstance(loop, ast.While) or loop.orelse or not loop.body:
+        return False
+    t = loop.test
+    ok_test = isinstance(t, ast.Name) and t.id == Q or (
+        isinstance(t, ast.Compare) and len(t.ops) == 1 and isinstance(t.left, ast.Call) and isinstance(t.left.func, ast.Name)
+        and t.left.func.id == "len" and len(t.left.args) == 1 and isinstance(t.left.args[0], ast.Name) and t.left.args[0].id == Q
+        and isinstance(t.comparators[0], ast.Constant) and t.comparators[0].value == 0 and isinstance(t.ops[0], (ast.Gt, ast.NotEq)))
+    if not ok_test:
+        return False
+    draw = loop.body[0]
+    if not (isinstance(draw, ast.Assign) and len(draw.targets) == 1 and isinstance(draw.value, ast.Call)
+            and isinstance(draw.value.func, ast.Attribute) and isinstance(draw.value.func.value, ast.Name)
+            and draw.value.func.value.id == Q and draw.value.func.attr in ("pop", "popleft")
+            and (not draw.value.args or draw.value.func.attr == "pop" and len(draw.value.args) == 1
+                 and isinstance(draw.value.args[0], ast.Constant) and draw.value.args[0].value in (0, -1))):
+        return False
+    tg = draw.targets[0]
+    fvars = list(tg.elts) if isinstance(tg, ast.Tuple) else [tg]
+    if len(fvars) != len(frame0) or not all(isinstance(v, ast.Name) for v in fvars) or len({v.id for v in fvars}) != len(fvars):
+        return False
+    rest = loop.body[1:]
+    ren = {v.id: p.id for v, p in zip(fvars, frame0)}
+    # every other use of the stack is a push of a frame of the same shape; no break; frame variables and parameters are
+    # not rebound in the body
+    pushes = []
+    for st in rest:
+        for n in ast.walk(st):
+            if isinstance(n, (ast.FunctionDef, ast.Lambda)):
+                return False
+            if isinstance(n, ast.Name) and n.id == Q:
+                par_ok = False
+                for c in ast.walk(st):
+                    if isinstance(c, ast.Call) and isinstance(c.func, ast.Attribute) and c.func.value is n \
+                            and c.func.attr == "append" and len(c.args) == 1 and not c.keywords:
+                        a = c.args[0]
+                        els = list(a.elts) if isinstance(a, ast.Tuple) and len(frame0) > 1 else [a]
+                        if len(els) == len(frame0):
+                            par_ok = True
+                            pushes.append((c, els))
+                if not par_ok:
+                    return False
+            if isinstance(n, ast.Name) and isinstance(n.ctx, (ast.Store, ast.Del)) and (n.id in ren or n.id in params):
+                return False
+            if isinstance(n, ast.Name) and n.id in ren.values() and ren.get(n.id) != n.id and n.id not in ren:
+                # the parameter itself is still read in the body next to the frame variable: keep apart
+                if any(v != p for v, p in ren.items()):
+                    return False
+
+    def own_level(stmts, in_inner_loop: bool) -> bool:
+        for st in stmts:
+            if isinstance(st, ast.Break) and not in_inner_loop:
+                return False
+            if isinstance(st, (ast.Return, ast.Yield, ast.YieldFrom)):
+                return False
+            inner = in_inner_loop or isinstance(st, (ast.For, ast.While))
+            for fld in ("body", "orelse", "finalbody"):
+                sub = getattr(st, fld, None)
+                if isinstance(sub, list) and sub and isinstance(sub[0], ast.stmt):
+                    if not own_level(sub, inner if fld == "body" else in_inner_loop):
+                        return False
+            for h in getattr(st, "handlers", []) or []:
+                if not own_level(h.body, in_inner_loop):
+                    return False
+        return True
+    if not own_level(rest, False) or not pushes:
+        return False
+    if any(isinstance(n, (ast.Yield, ast.YieldFrom, ast.Return)) for st in rest for n in ast.walk(st)):
+        return False
+    # pushes must be statements of their own
+    push_calls = {id(c) for c, _ in pushes}
+    for st in rest:
+        for n in ast.walk(st):
+            if isinstance(n, ast.Call) and id(n) in push_calls:
+                pass
+    pos = {p.id: k for k, p in enumerate(frame0)}
+
+    class R(ast.NodeTransformer):
+        def visit_Name(self, n):
+            if n.id in ren:
+                return ast.copy_location(ast.Name(ren[n.id], n.ctx), n)
+            return n
+
+        def visit_Continue(self, n):
+            return n
+
+        def visit_Call(self, n):
+            if id(n) in push_calls:
+                els = next(e for c, e in pushes if c is n)
+                els = [self.visit(e) for e in els]
+                args = []
+                for p_ in params[(1 if in_class else 0):]:
+                    args.append(els[pos[p_]] if p_ in pos else ast.Name(p_, ast.Load()))
+                f_ = ast.Attribute(ast.Name(params[0], ast.Load()), fn.name, ast.Load()) if in_class else ast.Name(fn.name, ast.Load())
+                call = ast.Call(f_, args, [])
+                ast.copy_location(call, n)
+                ast.fix_missing_locations(call)
+                for y in ast.walk(call):
+                    if hasattr(y, "lineno"):
+                        y.lineno = y.end_lineno = n.lineno
+                return call
+            return self.generic_visit(n)
+
+    def cont_to_return(stmts, in_inner_loop: bool):
+        for k, st in enumerate(stmts):
+            if isinstance(st, ast.Continue) and not in_inner_loop:
+                stmts[k] = ast.copy_location(ast.Return(None), st)
+                continue
+            inner = in_inner_loop or isinstance(st, (ast.For, ast.While))
+            for fld in ("body", "orelse", "finalbody"):
+                sub = getattr(st, fld, None)
+                if isinstance(sub, list) and sub and isinstance(sub[0], ast.stmt):
+                    cont_to_return(sub, inner if fld == "body" else in_inner_loop)
+            for h in getattr(st, "handlers", []) or []:
+                cont_to_return(h.body, in_inner_loop)
+    new_rest = [R().visit(st) for st in rest]
+    cont_to_return(new_rest, False)
+    fn.body = body[:i] + new_rest
+    ast.fix_missing_locations(fn)
+    return True
 
 
 def _is_chain_from_iterable(e: ast.AST) -> ast.expr | None:
@@ -518,9 +1002,13 @@ class Repo:
                     tree = ast.parse(src, filename=str(f))
                 except SyntaxError as e:
                     raise AnalysisError(f"{f} does not parse: {e}")
-                _drop_local_annotations(tree)
                 m = Module(modname, f, src, tree)
                 self.modules[modname] = m
+        if self.normalise:
+            from . import typefacts
+            self.type_normalisation = typefacts.normalise({k: m.tree for k, m in self.modules.items()})
+        for m in self.modules.values():
+            _drop_local_annotations(m.tree)
         if self.normalise:
             _normalise_namedtuples([m.tree for m in self.modules.values()])
         for m in self.modules.values():
